@@ -819,11 +819,12 @@ package webrtc
 // transceiver has no mid yet.
 //@ func (*RTPTransceiver).Stop
 //@ trusted
-//@ props C03
+//@ props C03 C08
 //@ ensures err == nil
+//@ ensures t.Direction() == RTPTransceiverDirectionInactive
 //@ func (*API).NewRTPReceiver
 //@ trusted
-//@ props C03
+//@ props C03 C08
 //@ ensures err == nil && ret0 != nil
 //@ func (*ICETransport).restart
 //@ trusted
